@@ -115,6 +115,9 @@ def check(s):
     # ---------------------------------------------------------------- C12.4 mapping-valued pytree fields keep their order
     check_mapping_fields(s)
     # ---------------------------------------------------------------- C12.6 regrouping of per-environment data keeps environments apart
+    # parallel evaluation episodes (benchmark.average_reward vmaps an episode helper over keys): each gets its own key
+    from .C19 import check_average_reward
+    check_average_reward(s, "C12.2")
     from .C06 import check_flatten, check_sample
     check_flatten(s, "C12.6")
     check_sample(s, "C12.6", "C12.6")
